@@ -12,7 +12,7 @@ READY = True
 
 P = "Dashu.Props.C17."
 THEOREMS = [P + t for t in [
-    "replay_every_event_safe", "history_keeps_invariant", "history_safe", "history_no_ub", "no_leak",
+    "replay_every_event_safe", "history_keeps_invariant", "history_safe", "history_no_ub", "no_leak", "no_leak_total",
     "from_buffer_canonical", "clone_from_correct", "clone_correct", "ones_canonical", "with_sign_canonical",
     "capacity_policy", "ensure_capacity_exact_breaks_max", "ones_prefix_not_canonical",
     "unsafe_buffer_rs_97", "unsafe_buffer_rs_111_470", "unsafe_buffer_rs_148", "unsafe_buffer_rs_209",
@@ -173,7 +173,8 @@ def buf_history(rng, nsteps, fail_p=0.04):
         k = rng.randrange(R)
         cur = m.r[k]
         if cur is None:
-            c = rng.choice(["alloc", "alloc", "allocx", "fromw", "fromw", "word", "dword", "ones", "bclone", "rclone", "fromw3"])
+            c = rng.choice(["alloc", "alloc", "allocx", "fromw", "fromw", "word", "dword", "ones", "bclone", "rclone", "fromw3",
+                            "heapval", "heapval", "roomy"])
             if c == "alloc":
                 n = rng.choice([0, 0, 1, 2, 3, 4, 5, 6, 7, 8, 9, 15, 16, 17, 30, 100, 200])
                 toks.append("alloc:%d:%d" % (k, n)); m.r[k] = ['b', [], dc(n)]
@@ -184,6 +185,18 @@ def buf_history(rng, nsteps, fail_p=0.04):
                 n = rng.choice([0, 1, 2, 3, 3, 4, 5, 8, 9, 13, 20, 40]) if c == "fromw" else rng.choice([3, 4, 5])
                 ws = _ws(rng, n, topzero=rng.choice([None, None, True, False]))
                 toks.append("fromw:%d:%s" % (k, _fw(ws))); m.r[k] = ['b', ws, dc(n)]
+            elif c == "heapval":
+                # a heap-allocated value right away (>= 3 words, non-zero top word)
+                n = rng.choice([3, 3, 4, 5, 6, 7, 8, 9, 12, 16, 17, 24, 33, 45])
+                ws = _ws(rng, n, topzero=False)
+                toks.append("fromw:%d:%s" % (k, _fw(ws))); toks.append("tou:%d" % k)
+                m.r[k] = m.from_buffer(ws, dc(n))
+            elif c == "roomy":
+                # a buffer with much more room than max_compact_capacity(len): from_buffer must shrink it
+                n = rng.choice([20, 40, 100, 200])
+                ws = _ws(rng, rng.choice([3, 4, 5, 8]), topzero=False)
+                toks.append("alloc:%d:%d" % (k, n)); toks.append("pushs:%d:%s" % (k, _fw(ws)))
+                m.r[k] = ['b', ws, dc(n)]
             elif c == "word":
                 w = _w(rng)
                 toks.append("word:%d:%x" % (k, w)); m.r[k] = ['r', [w] if w else [], 1, False]
@@ -253,7 +266,7 @@ def buf_history(rng, nsteps, fail_p=0.04):
                     ws.append(w)
             elif c in ("zeros", "zerosf"):
                 free = cap - l
-                n = rng.choice([0, 1, 2, free, max(free - 1, 0)] + ([free + 1] if fail else []))
+                n = rng.choice([x for x in (0, 1, 2, free, max(free - 1, 0)) if x <= free] + ([free + 1] if fail else []))
                 if n > 300:
                     continue
                 toks.append("%s:%d:%d" % (c, k, n))
@@ -294,13 +307,13 @@ def buf_history(rng, nsteps, fail_p=0.04):
                 while ws and ws[-1] == 0:
                     ws.pop()
             elif c == "trunc":
-                n = rng.choice([0, 1, 2, 3, l, max(l - 1, 0)] + ([l + 1] if fail else []))
+                n = rng.choice([x for x in (0, 1, 2, 3, l, max(l - 1, 0)) if x <= l] + ([l + 1] if fail else []))
                 toks.append("trunc:%d:%d" % (k, n))
                 if n > l:
                     return toks
                 cur[1] = ws[:n]
             elif c == "erase":
-                n = rng.choice([0, 1, 2, l, max(l - 1, 0)] + ([l + 1] if fail else []))
+                n = rng.choice([x for x in (0, 1, 2, l, max(l - 1, 0)) if x <= l] + ([l + 1] if fail else []))
                 toks.append("erase:%d:%d" % (k, n))
                 if n > l:
                     return toks
@@ -391,7 +404,7 @@ FIXED_BUF = [
 def buf_cases(rng, tier):
     for h in FIXED_BUF:
         yield Case("mem.buf", h.split(" "))
-    n = 2500 if tier == "quick" else 60000
+    n = 2500 if tier == "quick" else 150000
     for i in range(n):
         steps = rng.choice([3, 6, 10, 16, 25, 40])
         toks = buf_history(rng, steps)
@@ -429,7 +442,7 @@ def val_history(rng, nsteps, maxbits):
         c = rng.choice(["set", "set", "clone", "clonefrom", "clonefrom", "add", "sub", "sub", "mul", "div", "rem", "gcd",
                         "addm", "subm", "mulm", "adda", "suba", "mula", "selfadd", "selfsub", "selfmul", "selfaddv", "sqr",
                         "pow", "shl", "shr", "shr", "neg", "abs", "ones", "words", "bytes", "bytesbe", "parts", "take",
-                        "swap", "drop", "cancel", "grow"])
+                        "swap", "drop", "cancel", "grow", "sclone", "sadd", "smul"])
         x = vals[k]
         if c == "set":
             v = _val(rng, maxbits > 4000)
@@ -551,6 +564,13 @@ def val_history(rng, nsteps, maxbits):
             toks.append("adda:%d:%d" % (k, j)); vals[k] = 2 * t - x
         elif c == "drop":
             toks.append("drop:%d" % k); vals[k] = None
+        elif c in ("sclone", "sadd", "smul"):
+            i = rng.randrange(4)
+            sv = STATIC_VALS[i]
+            if c != "sclone" and x is None:
+                continue
+            toks.append("%s:%d:%d" % (c, k, i))
+            vals[k] = sv if c == "sclone" else (x + sv if c == "sadd" else x * sv)
         else:
             if x is None:
                 continue
@@ -570,7 +590,10 @@ def val_history(rng, nsteps, maxbits):
     return toks
 
 
+STATIC_VALS = [7, 5 + 9 * 2 ** 64, 1 + 2 * 2 ** 64 + 3 * 2 ** 128, (2 ** 64 - 1) + 2 ** 256]
+
 FIXED_VAL = [
+    "sclone:0:0 sclone:1:1 sclone:2:2 sclone:3:3 sadd:2:3 smul:3:2 set:4:-1 sadd:4:2 smul:4:3 clonefrom:0:3 drop:3",
     "set:0:ffffffffffffffffffffffffffffffff set:1:1 add:2:0:1 sub:3:2:1 selfsub:2 shl:0:70 shr:0:200 drop:1",
     "set:0:123456789abcdef0123456789abcdef0123456789abcdef set:1:-1 clonefrom:1:0 clonefrom:0:1 set:2:5 clonefrom:0:2 clonefrom:2:1",
     "ones:0:128 ones:1:129 ones:2:127 sub:3:1:0 sub:4:0:2 clonefrom:1:0 words:0 bytes:1 bytesbe:2 parts:3",
@@ -585,7 +608,7 @@ FIXED_VAL = [
 def val_cases(rng, tier):
     for h in FIXED_VAL:
         yield Case("mem.val", h.split(" "))
-    n = 2500 if tier == "quick" else 50000
+    n = 2500 if tier == "quick" else 120000
     for i in range(n):
         toks = val_history(rng, rng.choice([4, 8, 15, 25, 40]), 6000 if tier == "quick" else 30000)
         if toks:
@@ -646,11 +669,21 @@ def miri_cases(rng, tier):
         MIRI_NOTE["skipped"] = "VERIF_NO_MIRI set"
         return
     t0 = time.time()
+    try:
+        pv = subprocess.run(["cargo", "+nightly", "miri", "--version"], cwd=HARNESS, env=ENV, stdout=subprocess.PIPE,
+                            stderr=subprocess.PIPE, text=True, timeout=120)
+        if pv.returncode != 0:
+            MIRI_NOTE["skipped"] = "cargo +nightly miri not available"
+            log("C17: Miri not available, support runs skipped")
+            return
+    except Exception as e:
+        MIRI_NOTE["skipped"] = "cargo +nightly miri not available: %r" % e
+        return
     hists = [("buf", h.split(" ")) for h in FIXED_BUF[1:3] + FIXED_BUF[4:9]] + [("val", h.split(" ")) for h in FIXED_VAL[:5]]
     if tier == "thorough":
-        for _ in range(260):
+        for _ in range(700):
             hists.append(("buf", buf_history(rng, rng.choice([6, 12, 25]))))
-        for _ in range(260):
+        for _ in range(700):
             hists.append(("val", val_history(rng, rng.choice([6, 12, 25]), 4000)))
         hists = [h for h in hists if h[1]]
     tdir = tempfile.mkdtemp(prefix="verif-miri-")
